@@ -2,7 +2,9 @@
 
 Tie (behavioural): for generated records over eq/ord-eligible field types (fixed-width integers, bool, string, enum,
 nested records, optionals of those, lists and binary for eq) the real generators' C++ sources are compiled (g++) with a
-driver built from drawn value tuples and run; the Java classes are compiled (javac) with a driver and run on the JVM.
+driver built from drawn value tuples (two equal objects, every optional absent/present, and per integer field copies of
+one base tuple that differ only in that field: both extremes and their neighbours, adjacent pairs at powers of two incl.
+2^53 — `int_neighbourhoods`; nested records through pool entries that are neighbours of each other) and run; the Java classes are compiled (javac) with a driver and run on the JVM.
 Every `== != < > <= >=`, `equals`, `hashCode`, `compareTo` sign (or exception) and `toString` result is compared with the
 Lean model's evaluation (`c09.eval`: the emitted bodies as `Lang/MiniImp` programs) of the same tuples, and the
 specification (`c09.spec`: equivalence, "all fields equal", lexicographic strict total order consistent with ==,
@@ -69,11 +71,13 @@ PRELUDE = """col = enum { red; green_light; blue; }
 in_a = record { x: i32; s: string; } deriving(eq, ord)
 in_b = record { k: i64; o: string?; } deriving(eq)
 in_c = record { y: i16; }
+in_d = record { t: i64; n: i16; } deriving(eq, ord)
 """
 INNER = {  # nested record types: fields, deriving
     "in_a": {"fields": [("x", "i32"), ("s", "string")], "eq": True, "ord": True},
     "in_b": {"fields": [("k", "i64"), ("o", "string?")], "eq": True, "ord": False},
     "in_c": {"fields": [("y", "i16")], "eq": False, "ord": False},
+    "in_d": {"fields": [("t", "i64"), ("n", "i16")], "eq": True, "ord": True},
 }
 
 
@@ -108,7 +112,9 @@ def draw(r: random.Random, ty, pools, depth=0):
     k = ty["k"]
     if k == "int":
         lo, hi = I_RANGE[ty["w"]]
-        return r.choice([lo, hi, -1, 0, 1, 2, r.randint(lo, hi), 7])
+        if r.random() < 0.6:
+            return r.choice([lo, hi, -1, 0, 1, 2, r.randint(lo, hi), 7])
+        return clamp(ty["w"], r.choice([1, -1]) * (1 << r.randrange(BITS[ty["w"]])) + r.choice([-2, -1, 0, 1, 2]))
     if k == "bool":
         return r.random() < 0.5
     if k == "float":
@@ -124,6 +130,30 @@ def draw(r: random.Random, ty, pools, depth=0):
     if k == "list":
         return [draw(r, {**ty["elem"], "opt": False}, pools, depth + 1) for _ in range(r.choice([0, 1, 2, 2, 3]))]
     raise ValueError(k)
+
+
+def clamp(w, v):
+    lo, hi = I_RANGE[w]
+    return max(lo, min(hi, v))
+
+
+def int_neighbourhoods(r: random.Random, w: str) -> list[int]:
+    """Values of one integer field that separate an exact comparison from a lossy one (conversion to a narrower or a
+    floating-point type, comparison by subtraction): both extremes with their neighbours (far apart *and* adjacent), and
+    two adjacent pairs at powers of two of either sign — one in the upper quarter of the width (beyond every narrower
+    representation: 2^53 for a double mantissa, 2^24 for float, 2^31 for int), one anywhere."""
+    lo, hi = I_RANGE[w]
+    b = BITS[w]
+    hi_k = r.randrange(b - b // 4, b - 1)             # i64: 48..62, i32: 24..30, i16: 12..14, i8: 6
+    any_k = r.randrange(1, b - 1)
+    vals = [lo, lo + 1, hi - 1, hi]
+    for k in (hi_k, any_k):
+        base = r.choice([1, -1]) * (1 << k)
+        vals += [clamp(w, base), clamp(w, base + 1)]
+    if b == 64:                                        # every 64-bit field also gets the mantissa boundary of a double itself
+        sgn = r.choice([1, -1])
+        vals += [sgn * (1 << 53), sgn * (1 << 53) + sgn]
+    return list(dict.fromkeys(vals))
 
 
 def cpp_type(ty, names, inner=False):
@@ -264,8 +294,8 @@ def java_ref(ty) -> bool:
 # ---------------------------------------------------------------------------------------------
 
 EQ_TYPES = ["i8", "i16", "i32", "i64", "bool", "string", "col", "in_a", "in_b", "i32?", "string?", "i64?", "bool?", "col?", "in_a?", "i8?",
-            "list<i32>", "list<string>", "list<col>", "list<in_a>", "binary", "binary?", "list<i64>?"]
-ORD_TYPES = ["i8", "i16", "i32", "i64", "string", "col", "in_a"]
+            "list<i32>", "list<string>", "list<col>", "list<in_a>", "binary", "binary?", "list<i64>?", "in_d", "in_d?"]
+ORD_TYPES = ["i8", "i16", "i32", "i64", "string", "col", "in_a", "in_d", "i64"]
 FIELD_NAMES = ["a", "b_two", "c", "dd", "e_x", "f", "g1"]
 
 
@@ -339,12 +369,31 @@ def draw_tuples(r: random.Random, rec, pools, m: int):
     if any(t["k"] == "float" for t in tys):     # 0.0 and -0.0 in otherwise equal objects
         tuples.append([0 if t["k"] == "float" else x for t, x in zip(tys, base)])
         tuples.append([1 if t["k"] == "float" else x for t, x in zip(tys, base)])
+    # every integer field: copies of the base tuple (all other fields equal, so the comparison is decided by this field alone)
+    # with adjacent and far-apart values around the extremes and powers of two; nested records: the adjacent pool entries
+    int_fields = [i for i, t in enumerate(tys) if t["k"] == "int"]
+    budget = 26
+    for i in int_fields:
+        vals = int_neighbourhoods(r, tys[i]["w"])
+        if len(int_fields) > 2 and i != int_fields[0]:
+            vals = vals[2:4] + vals[4:6]               # many integer fields: the upper extreme pair and one power-of-two pair
+        for v in vals[:max(0, budget)]:
+            tuples.append([v if j == i else x for j, x in enumerate(base)])
+        budget -= len(vals)
+    for i, t in enumerate(tys):
+        if t["k"] == "record" and len(tuples) < m + 30:
+            for v in (0, 1):                           # pool entries 0 and 1 differ by one in their first integer field
+                tuples.append([v if j == i else x for j, x in enumerate(base)])
+    m = max(m, len(tuples) + 3)
     while len(tuples) < m:
         if r.random() < 0.6:
             t = list(r.choice(tuples))
             for _ in range(r.choice([1, 1, 2])):
                 i = r.randrange(len(tys))
-                t[i] = draw(r, tys[i], pools)
+                if tys[i]["k"] == "int" and t[i] is not None and r.random() < 0.5:
+                    t[i] = clamp(tys[i]["w"], t[i] + r.choice([-1, 1]))      # a neighbour of a value already present
+                else:
+                    t[i] = draw(r, tys[i], pools)
         else:
             t = [draw(r, ty, pools) for ty in tys]
         tuples.append(t)
@@ -550,13 +599,21 @@ def prepare(ctx, records, tag, res, fixed=None):
     for nm, inner in INNER.items():
         tys = [parse_type(t) for _, t in inner["fields"]]
         pool = []
+        first = [draw(pr, t, {}) for t in tys]
+        ints = [i for i, t in enumerate(tys) if t["k"] == "int"]
+        if ints:
+            w = tys[ints[0]]["w"]
+            v = pr.choice(int_neighbourhoods(pr, w)[2:])           # upper extreme or a power of two
+            v = v - 1 if v == I_RANGE[w][1] else v
+            first[ints[0]] = v
+            pool = [first, [v + 1 if j == ints[0] else x for j, x in enumerate(first)]]
         while len(pool) < 5:
             tup = [draw(pr, t, {}) for t in tys]
             if tup not in pool:
                 pool.append(tup)
         pools[nm] = pool
     if fixed:
-        pools = fixed["pools"]
+        pools = {**pools, **fixed["pools"]}
     atoms = {"col_java_items": names["col"]["java_items"]}
     for nm, inner in INNER.items():
         rec = {"name": nm, "fields": inner["fields"], "eq": inner["eq"], "ord": inner["ord"]}
@@ -693,7 +750,7 @@ def observe_decisions(info):
     cppf = info["files"].get("cpp", {})
     hdr = [glue.tokenize(t) for p, t in cppf.items() if not p.endswith(".cpp")]
     src = [glue.tokenize(t) for p, t in cppf.items() if p.endswith(".cpp")]
-    jav = [glue.tokenize(t) for p, t in info["files"].get("java", {}).items()]
+    jav = [glue.tokenize(t, lang="java") for p, t in info["files"].get("java", {}).items()]
 
     def anyseq(tl, *seq):
         return any(has_seq(t, *seq) for t in tl)
@@ -820,7 +877,7 @@ def corpus_records():
 
 def run(ctx):
     ctx.coverage["rule"] = ("records with 1..5 fields over integers, bool, string, enum, nested records, optionals, lists, binary; deriving eq / ord / both; "
-                            "7 (9) value tuples per record, all ordered pairs; distinct = distinct (deriving, field type list); plus all 144 combinations of "
+                            "7 (9) random value tuples per record plus, per integer field, copies of the base tuple with adjacent / far-apart values at the extremes and at powers of two (i64: beyond 2^53), all ordered pairs; distinct = distinct (deriving, field type list); plus all 144 combinations of "
                             "deriving x field count x string_serialization x base-record flags for the emission decisions; evaluations = comparisons run")
     ctx.assumptions += [
         "string values are ASCII (C++ compares bytes, Java UTF-16 units); floating-point fields are not drawn (NaN / signed zero are outside a linear order)",
